@@ -36,6 +36,16 @@ CHECKS["C02"] = (
     "DESIGN.md section 3, C02",
 )
 
+CHECKS["C03"] = (
+    "explicit-state BFS over the conversion graph (canonical state hashing), real hops as transitions",
+    "For every initial interface of the common domain (1-3 parameters) a breadth-first search explores every chain of hops over "
+    "{class, pydantic, function, argparse, docstring-rest} up to depth 5 (thorough 6) - all sequences, none sampled - merging states by "
+    "canonical interface; every transition is executed by the real emit/render/parse code and must preserve its source state. Graphs that "
+    "close before the bound cover chains of every length.",
+    "per-hop preservation implies end-to-end preservation and commutation; transitions out of already-violating states are not followed",
+    "DESIGN.md section 3, C03",
+)
+
 PENDING_REASON = "check not built yet in this revision (planned, see DESIGN.md section 3); no claim is made"
 
 
